@@ -81,7 +81,7 @@ func newSpecGen(seed int64, nHot int) *specGen {
 	return g
 }
 
-var specKinds = []string{"Struct", "ValidateStruct", "StructForFn", "StructForFns", "NestedStructForRule", "Groups", "Var", "VarForFn", "Map", "MapFn", "Url", "Explain", "Dump", "ColdType"}
+var specKinds = []string{"Struct", "ValidateStruct", "StructForFn", "StructForFns", "NestedStructForRule", "Groups", "Var", "VarForFn", "Map", "MapFn", "Url", "Explain", "Dump", "ColdType", "Helpers", "LongSlice"}
 
 func (g *specGen) next() callSpec {
 	rng := g.rng
@@ -137,6 +137,8 @@ func (g *specGen) next() callSpec {
 					return valid.StructForFns(in, otherRM, valid.Name2FnMap{"phone": markerFn("pred_phone"), "required": markerFn("pred_required"), "to": markerFn("pred_to"), "l_mark": markerFn("pred_l_mark")})
 				})
 			},
+			func() { helperCalls("required", "", "", 0); helperCalls("to", "1~3", "m", 3) },
+			func() { helperCalls("re", "", "", 1); helperCalls("in", "", "x", 2); helperCalls("eq", "5", "", 4) },
 			func() { drive.Call(func() error { return valid.Struct(nil) }) },
 			func() { drive.Call(func() error { return valid.Struct(nilT) }) },
 			func() { drive.Call(func() error { return valid.Struct(5) }) },
@@ -160,6 +162,45 @@ func (g *specGen) next() callSpec {
 		}
 	}
 	switch kind {
+	case "LongSlice":
+		// long, unsorted collections under the rules that walk them (thresholds of fast paths; rules
+		// that sort or de-duplicate must work on copies)
+		n := 17 + rng.Intn(30)
+		ss := make([]string, n)
+		is := make([]int, n)
+		for i := range ss {
+			ss[i] = fmt.Sprintf("e%02d", rng.Intn(80))
+			is[i] = rng.Intn(80)
+		}
+		rule := []string{"unique|m_u", "unique", "unique,ge=3|m_g", "ints|m_i,unique", "le=100,unique|m_u"}[rng.Intn(5)]
+		type longT struct {
+			L []string `valid:"unique|m_lu,le=90"`
+			N []int    `valid:"unique,ints"`
+		}
+		switch rng.Intn(3) {
+		case 0:
+			s.Inputs = []interface{}{ss}
+			s.Desc = fmt.Sprintf("Var([]string x%d, %q)", n, rule)
+			s.Run = func() string { return normErr(drive.Call(func() error { return valid.Var(ss, rule) })) }
+		case 1:
+			s.Inputs = []interface{}{is}
+			s.Desc = fmt.Sprintf("Var([]int x%d, %q)", n, rule)
+			s.Run = func() string { return normErr(drive.Call(func() error { return valid.Var(is, rule) })) }
+		default:
+			v := &longT{L: ss, N: is}
+			s.Inputs = []interface{}{v}
+			s.Desc = fmt.Sprintf("Struct(longT with %d-element slices)", n)
+			s.Run = func() string { return normErr(drive.Call(func() error { return valid.Struct(v) })) }
+		}
+	case "Helpers":
+		// the exported helpers share the pooled builders with the validators
+		key := allRuleKeys[rng.Intn(len(allRuleKeys))]
+		val := []string{"", "1~3", "a/b", "'x,y'", "="}[rng.Intn(5)]
+		msg := []string{"", "m", "必填", "two words"}[rng.Intn(4)]
+		shape := rng.Intn(6)
+		s.Inputs = []interface{}{key, val, msg}
+		s.Desc = fmt.Sprintf("helpers(key=%q val=%q msg=%q shape=%d)", key, val, msg, shape)
+		s.Run = func() string { return helperCalls(key, val, msg, shape) }
 	case "Struct", "ValidateStruct", "StructForFn", "StructForFns":
 		t := pickType()
 		tag := "valid"
@@ -380,6 +421,40 @@ func (g *specGen) list(n int) []callSpec {
 	out := make([]callSpec, n)
 	for i := range out {
 		out[i] = g.next()
+	}
+	return out
+}
+
+// helperCalls exercises the exported rule / error-text helpers in every argument shape and returns
+// what they returned (the helpers borrow the same pooled builders as the validators).
+func helperCalls(key, val, msg string, shape int) string {
+	out, pan, _ := drive.CallStr(func() string {
+		var parts []string
+		switch shape {
+		case 0:
+			parts = append(parts, valid.GenValidKV(key, ""))
+		case 1:
+			parts = append(parts, valid.GenValidKV(key))
+		case 2:
+			parts = append(parts, valid.GenValidKV(key, "", msg))
+		case 3:
+			parts = append(parts, valid.GenValidKV(key, val, msg))
+		case 4:
+			parts = append(parts, valid.GenValidKV(key, val))
+		default:
+			parts = append(parts, valid.GenValidKV(key, val), valid.GenValidKV(key, ""), valid.GenValidKV(key, "", ""))
+		}
+		rm := valid.NewRule().Set("A,B", parts[0]).Set("A", "required")
+		parts = append(parts, rm.Get("A"), rm.Get("B"))
+		for _, p := range valid.ValidNamesSplit(rm.Get("A")) {
+			k, v, m := valid.ParseValidNameKV(p)
+			parts = append(parts, k+"/"+v+"/"+m)
+		}
+		parts = append(parts, valid.GetJoinValidErrStr("O", "F", val, msg), valid.GetJoinValidErrStr("", "F", val), valid.GetJoinFieldErr("O", "F", "e"), valid.GetOnlyExplainErr(valid.GetJoinValidErrStr("O", "F", val, "why")))
+		return strings.Join(parts, " # ")
+	})
+	if pan != "" {
+		return "PANIC " + pan
 	}
 	return out
 }
